@@ -43,15 +43,22 @@ SWITCHES = (("LatestPerPage", "Equiv"), ("TxnBoundary", "Equiv"), ("OffsetOrder"
             ("StopAtChecksumBreak", "Equiv"), ("ErrorOnOpenTxn", "OpenTxnIsError"), ("RespectStart", "Equiv"))
 
 
+def complete(r):
+    """vlib.tlc reports a JVM that was killed from outside (no 'Error:' line, no state count) as ok; this check does not."""
+    if r["rc"] != 0 or r["distinct"] == 0 or "Model checking completed" not in r["out"]:
+        raise vlib.Undecided("TLC %s/%s did not run to completion (rc=%s, %d states)" % (r["module"], r["cfg"], r["rc"], r["distinct"]))
+    return r
+
+
 def design(ctx):
     # small bound with coverage: every Append* action must have been taken (vacuity)
-    vlib.tlc_mc(ctx, "WALCompact", "WALCompact_mc.cfg", workers=2, heap=SMALL)
+    complete(vlib.tlc_mc(ctx, "WALCompact", "WALCompact_mc.cfg", workers=2, heap=SMALL))
     with cf.ThreadPoolExecutor(4) as ex:
         fs = [ex.submit(vlib.tlc_neg, ctx, "WALCompact", "WALCompact_neg_%s.cfg" % sw, expect=inv, workers=1, heap=SMALL) for sw, inv in SWITCHES]
         for f in fs:
             f.result()
     for cfg in ctx.pick(["WALCompact_mc4q.cfg"], ["WALCompact_mc4b.cfg", "WALCompact_mc5.cfg", "WALCompact_mc6.cfg"]):
-        vlib.tlc_mc(ctx, "WALCompact", cfg, coverage=False, workers=ctx.pick(4, 6), timeout=3000, heap=BIG)
+        complete(vlib.tlc_mc(ctx, "WALCompact", cfg, coverage=False, workers=ctx.pick(4, 6), timeout=3000, heap=BIG))
     ctx.cov["exhaustive"] = True
 
 
@@ -61,6 +68,8 @@ _CASE = re.compile(r'<<\s*"@@",\s*"([^"]*)"\s*>>')
 def gen_cases(ctx, cfg):
     """The generator prints nested integer tuples (TLC's ToString); see Emit in WALCompact.tla."""
     r = vlib.tlc(ctx, "WALCompact", cfg, workers=ctx.pick(3, 5), coverage=False, timeout=3000, heap=BIG)
+    if r["rc"] != 0 and not r["violated"]:
+        raise vlib.Undecided("generator %s did not run to completion (rc=%s)" % (cfg, r["rc"]))
     if r["violated"]:
         raise vlib.Undecided("generator %s violated %s" % (cfg, r["violated"]))
     cases = []
@@ -136,7 +145,7 @@ def synthetic(ctx):
     ctx.cov["synthetic"] = tot
     ctx.add("traces_validated_against_impl", tot["wals_replayed"])
     ctx.add("evaluations", tot["runs"])
-    ctx.add("distinct_nontrivial", tot["nontrivial"])
+    ctx.add("distinct_nontrivial", tot.get("nontrivial_wals", 0))
 
 
 def sqlite_wals(ctx):
@@ -165,11 +174,13 @@ def sqlite_wals(ctx):
 
     def key(bad, inv):
         return "wal:compact:trace:sqlite:%s" % bad.get("scenario", "?")
-    vlib.trace_check(ctx, "TraceWALCompact", "TraceWALCompact.cfg", tr, "compacting scanner on SQLite-generated WALs",
-                     key_fn=key, selftest=corrupt, timeout=3000, heap=BIG)
+    r = vlib.trace_check(ctx, "TraceWALCompact", "TraceWALCompact.cfg", tr, "compacting scanner on SQLite-generated WALs",
+                         key_fn=key, selftest=corrupt, timeout=3000, heap=BIG)
+    if r["accepted"] and (r["rc"] != 0 or r["distinct"] != r["n"] + 1):
+        raise vlib.Undecided("trace validation did not run to completion (rc=%s, %d states for %d lines)" % (r["rc"], r["distinct"], r["n"]))
     ctx.add("traces_validated_against_impl", st["wals"])
     ctx.add("evaluations", st["runs"])
-    ctx.add("distinct_nontrivial", st.get("nontrivial", 0))
+    ctx.add("distinct_nontrivial", st.get("nontrivial_wals", 0))
     ctx.cov["sqlite_wals"] = {"stats": st, "scenarios": res["scenarios"], "page_sizes": res["page_sizes"],
                               "fast_mode_not_judged_examples": res["fast_unjudged_notes"]}
     rows = vlib.read_nd(tr)
@@ -193,8 +204,8 @@ def run(ctx):
             raise errs[0]
     ctx.cov["rule"] = ("synthetic: every WAL of the generator bound (frames over 3 pages x commit marker 0/1..4 x at most one stale-salt and one "
                        "bad-checksum frame) x rotating page size / checksum endianness / tail / base size, evaluated in the checksum mode at start 0 "
-                       "and in the fast mode at every commit-boundary start; SQLite: seeded workloads, sampled starts; non-trivial = compaction "
-                       "dropped at least one committed frame")
+                       "and in the fast mode at every commit-boundary start; SQLite: seeded workloads, sampled starts; non-trivial = distinct WALs on which some judged "
+                       "compaction dropped at least one committed frame (evaluations = scanner runs over WAL x concretisation x mode x start)")
     ctx.assumptions += [
         "fast (salt-only) mode is not judged on WALs whose valid prefix is decided by a checksum alone (documented as trusting the WAL)",
         "resume positions are commit boundaries inside the committed valid prefix; frames with page number 0 and broken WAL headers are not generated",
